@@ -383,6 +383,14 @@ def run_encode(res):
         if not ok:
             res.violation("C19", "encoding", "word %#06x decodes to %r (address %r), encodes to %#06x, which decodes to %r" % (w, i, getattr(i, "address", None), e, j), {"kind": "word", "word": w})
             return
+        if (w >> 12) < 8:
+            # 'equal' must mean something: address-type instructions that differ in the opcode or in the address
+            # are different instructions (non-address opcodes and the NOP aliases legitimately ignore low bits)
+            res.count("inequalities_checked")
+            for w2 in (w ^ 1, w ^ 0x800, (w ^ 0x1000) & 0x7FFF):
+                if ToyInstruction.from_integer(w2) == i:
+                    res.violation("C19", "equality-too-weak", "the instructions decoded from %#06x and %#06x compare equal" % (w, w2), {"kind": "word", "word": w})
+                    return
     res.evaluations += 1 << 16
     # every assembler-constructible instruction: opcode in the top four bits, address in the low twelve
     for m in MNEMONICS:
@@ -632,6 +640,13 @@ def run_shard(spec, res):
     elif k == "docs":
         run_docs(res)
     elif k == "asm":
+        if spec["shard"] == 0:
+            # a memory filled by data down to address 0 (no instructions at all) still fits
+            for sz in (16, 24, 64):
+                vals = [(7 * i + 1) % 65536 for i in range(sz)]
+                case = {"kind": "asm", "text": ".data\nfull: .word " + ", ".join(str(v) for v in vals), "image": {str(i): v for i, v in enumerate(vals)}, "max_pc": -1, "stats": {"vars": 1, "refs": 0, "arrays": 1}, "size": sz}
+                res.count("memory_full_of_data")
+                guarded(run_case, prop, case, res)
         for it in range(spec["n"]):
             sz = rng.choice([4096, 4096, 4096, 4096, 64, 256, 1000, 2048, 5000, 16, 24, 64])
             case = gen_source(rng, sz, tight=sz <= 64 and rng.random() < 0.6)
